@@ -350,14 +350,21 @@ func C16(tier string) *engine.Report {
 	// "no trailing bytes left over from earlier frames" also across sessions: a second session on the same Stream
 	// (this in-memory driver never goes through the handshake, which is what resets the write side)
 	tot.Add(c18ResumedDFS(tier).Run(), rep)
+	// every payload size, not only the 8 classes of the menu
+	sres := c16SizesDFS(tier).Run()
+	tot.Add(sres, rep)
+	rep.Coverage["size_sweep"] = map[string]any{"sizes": len(c16SweepSizes), "executions": sres.Executions, "finished": sres.Exhaustive, "violations": len(sres.Violations)}
 	tot.Fill(rep, "all sequences of <=3 operations from the write menu (Write/AsyncWrite x 8 size classes, WriteFrame/AsyncWriteFrame with payload / SetPayload(nil) / no SetPayload, automatic Pong, Close/AsyncClose, automatic Close reply) x 3 transport behaviours, with a deferred transport write optionally left in flight while the next asynchronous operation starts; "+
-		"the complete outbound byte stream is parsed by an independent parser; non-trivial = more than one operation or a partial/deferred transport; plus, over real TCP, the resumed-session family of the handshake driver (the server of a second session on the same Stream receives exactly the first message written)", d.MaxDeviations)
+		"the complete outbound byte stream is parsed by an independent parser; non-trivial = more than one operation or a partial/deferred transport; plus, over real TCP, the resumed-session family of the handshake driver (the server of a second session on the same Stream receives exactly the first message written); plus a sweep of every payload size 0..8300 and within 24 bytes of 16/32/64/128 KiB, blocking and asynchronous, on a fresh stream and after a 20000-byte or 1-byte message", d.MaxDeviations)
 	return rep
 }
 
 func C16Replay(v engine.Violation, log func(string)) *engine.Violation {
 	if strings.HasPrefix(v.Config, "resumed-session@") {
 		return c18ResumedDFS(v.Config[16:]).ReplayChoices(v.Choices)
+	}
+	if strings.HasPrefix(v.Config, "sizes@") {
+		return c16SizesDFS(v.Config[6:]).ReplayChoices(v.Choices)
 	}
 	tier := "quick"
 	if len(v.Config) > 7 {
